@@ -268,3 +268,15 @@ _ROUND8 = {
 }
 for _k, _v in _ROUND8.items():
     META[_k]["text"] += " " + _v
+
+# dimensions added after the ninth round (ten properties)
+_ROUND9 = {
+    "C01": "One generated collection in ten holds 14-40 further records.",
+    "C03": "A rapid layer has one writer and 2-64 subscribers that leave and join between its writes.",
+    "C08": "A rapid layer runs deletes that go round their retry loop (their precondition callback rewrites the item) next to a filtered subscription.",
+    "C12": "Factories may return a half-built client with an error; default-name requests may be dynamicpb messages.",
+    "C13": "Unary calls may carry two header and two trailer capture options.",
+    "C14": "Keyed resources are also served with a case-folding id interceptor; a rapid layer sends one read mask to two devices of different kinds in one process.",
+}
+for _k, _v in _ROUND9.items():
+    META[_k]["text"] += " " + _v
